@@ -153,6 +153,7 @@ def exec_shard(ctx, exe, idx, cases):
         txt = open(f).read()
         for rep in txt.split("==================")[1::2]:
             races.append(rep)
+        os.remove(f)
     return tpath, races, crash, r.stderr[-3000:]
 
 
@@ -199,7 +200,7 @@ def gen_cases(ctx, n_total, traced_share=0.85):
     return out, len(space)
 
 
-def run(ctx, cases_override=None, repeat=1):
+def run(ctx, cases_override=None, repeat=1, confirm_pass=False):
     thorough = ctx.thorough
     ctx._spec_copy()
     bg = concurrent.futures.ThreadPoolExecutor(max_workers=1)
@@ -256,7 +257,7 @@ def run(ctx, cases_override=None, repeat=1):
             foreign, [r for r in race_reps if race_sig(r) is None][0][:3000]))
     slice_lock = any(r["ev"] == "H" and r["kind"] == "w" and r["h"] == "lock" for r in trace)
     # ---- JUDGE (shards of whole cases, judged in parallel)
-    nj = 1 if len(trace) < 4000 else 6
+    nj = 1 if len(trace) < 4000 else (12 if thorough else 6)
     parts = [[] for _ in range(nj)]
     sizes = [0] * nj
     cur = []
@@ -305,6 +306,27 @@ def run(ctx, cases_override=None, repeat=1):
         viols.append({"sig": sig_of(v), "what": what + " [k=%s c=%s mix=%s fault=%s]" % (v["k"], v["c"], v["mix"], v["fault"]),
                       "case": by_id.get(cid, {}), "detail": v})
     drift = ["case %s: %s" % (cid, json.dumps(d)[:300]) for cid, d in prints(j, "DRIFT")]
+    # ---- confirmation: a violation that is not a known finding must show again when its workload is run again
+    # (8 more schedules); a request that dies on a local socket of a busy machine must not become a verdict
+    if confirm_pass:
+        return {v["sig"] for v in viols}
+    transient = 0
+    if cases_override is None:
+        _, new = vlib.partition_violations(ctx.prop, viols)
+        by_sig = {}
+        for v in new:
+            if v["case"]:
+                by_sig.setdefault(v["sig"], v["case"])
+        if by_sig:
+            work = {json.dumps({k: c[k] for k in ("k", "c", "mix", "fault", "lat", "gc")}, sort_keys=True): c for c in by_sig.values()}
+            again = run(ctx, cases_override=[dict(c, tracer=c.get("tracer", True)) for c in list(work.values())[:12]], repeat=8, confirm_pass=True)
+            keep = []
+            for v in viols:
+                if v in new and v["case"] and v["sig"] not in again:
+                    transient += 1
+                    continue
+                keep.append(v)
+            viols = keep
     lead_cases = sorted({cid for cid, _ in prints(j, "LEAD")})
     twin_cases = [c for c in cases if c["mix"] == "rangeTwin"]
     if cases_override is None and h3 and not slice_lock and leads and twin_cases and not any(v["detail"].get("shared") for v in viols):
@@ -336,7 +358,7 @@ def run(ctx, cases_override=None, repeat=1):
         "workload_space": space, "trace_records": len(trace), "hook_events": len(hev),
         "server_requests": sum(1 for r in trace if r["ev"] == "S" and r["h"] == "start"),
         "hook_h3": h3, "slice_lock_variant": slice_lock, "model_lead_cases": len(lead_cases),
-        "race_reports": len(race_reps), "untraced_cases": len(cases) - len(traced_cases),
+        "race_reports": len(race_reps), "untraced_cases": len(cases) - len(traced_cases), "transient_unreproduced": transient,
     }
     return vlib.conclude(ctx, viols, "model_checking", cov, [
         "TLC model-checks NoTwin, Bounded, Once, Agree (+ termination under weak fairness) of the impl-shaped client for small constants, "
